@@ -139,6 +139,13 @@ def impl(case):
     import msmhelper as mh
     from implutil import build
     data = build(case['form'], case['trajs'], case.get('dtypes'), case.get('layout'))
+    if case['form'] == 'obj' or case.get('layout') == 'lumped':
+        # the same object went through the OTHER analysis (and a re-estimate) before
+        for pre in (mh.md.estimate_paths, mh.md.estimate_waiting_times):
+            try:
+                pre(data, case['S'], case['F'])
+            except Exception:  # noqa
+                pass
     if case['k'] == 'wt':
         r = mh.md.estimate_waiting_times(data, case['S'], case['F'])
         return {'ok': [int(v) for v in r]}
